@@ -36,10 +36,10 @@ def viewCold (objs : List Op) : Option HostView := hostView (coldRun objs).c hos
 /-! ## the named scenarios of the property: every order is a good history, all end alike -/
 
 /-- endpoint before pod (and every other order of the three objects) -/
-example : AllGood {} [.svc svcA, .slice s1, .pod p1] := by decide +kernel
-example : AllGood {} [.slice s1, .svc svcA, .pod p1] := by decide +kernel
-example : AllGood {} [.slice s1, .pod p1, .svc svcA] := by decide +kernel
-example : AllGood {} [.pod p1, .slice s1, .svc svcA] := by decide +kernel
+example : AllGood {} [] [.svc svcA, .slice s1, .pod p1] := by decide +kernel
+example : AllGood {} [] [.slice s1, .svc svcA, .pod p1] := by decide +kernel
+example : AllGood {} [] [.slice s1, .pod p1, .svc svcA] := by decide +kernel
+example : AllGood {} [] [.pod p1, .slice s1, .svc svcA] := by decide +kernel
 
 theorem endpoint_before_pod_example :
     viewAfter [.svc svcA, .slice s1, .pod p1] = viewAfter [.svc svcA, .pod p1, .slice s1] ∧
@@ -62,8 +62,8 @@ theorem endpoint_before_unready_pod_example :
 
 /-- the side conditions of `convergence_to_derive` hold for this history, and `derive` gives literally
     the view of the ordered run -/
-example : WF (run {} [.slice s1, .pod p1, .svc svcA]).c ∧ NoCachedAddr (run {} [.slice s1, .pod p1, .svc svcA]).c ∧
-    NoPodAtUntargeted (run {} [.slice s1, .pod p1, .svc svcA]).c ∧ DistinctB (run {} [.slice s1, .pod p1, .svc svcA]).c host := by
+example : WF (run {} [.slice s1, .pod p1, .svc svcA]).c ∧ staleRun {} [] [.slice s1, .pod p1, .svc svcA] = [] ∧
+    NoPodAtUntargeted (run {} [.slice s1, .pod p1, .svc svcA]).c ∧ (run {} [.slice s1, .pod p1, .svc svcA]).c.slices.Nodup := by
   decide +kernel
 
 theorem derive_example :
@@ -82,8 +82,8 @@ theorem pod_before_service_example :
 def p2r : Pod := pod "p2" "10.0.0.1" true [("app", "a")] "sa2" ""
 def s1r : Slice := sliceOf "a-s1" [ep "10.0.0.1" true false "p2"]
 
-example : AllGood {} [.svc svcA, .pod p1, .slice s1, .slice s1r, .pod p2r, .delPod "n1" "p1"] := by decide +kernel
-example : AllGood {} [.svc svcA, .pod p1, .slice s1, .slice (sliceOf "a-s1" []), .delPod "n1" "p1", .pod p2r, .slice s1r] := by
+example : AllGood {} [] [.svc svcA, .pod p1, .slice s1, .slice s1r, .pod p2r, .delPod "n1" "p1"] := by decide +kernel
+example : AllGood {} [] [.svc svcA, .pod p1, .slice s1, .slice (sliceOf "a-s1" []), .delPod "n1" "p1", .pod p2r, .slice s1r] := by
   decide +kernel
 
 theorem ip_reuse_example :
@@ -97,8 +97,8 @@ theorem ip_reuse_example :
 /-- label edit on a ready pod selected by the service: `recomputeServiceForPod` rebuilds the slices -/
 def p1v2 : Pod := pod "p1" "10.0.0.1" true [("app", "a"), ("version", "v2")] "sa1" ""
 
-example : AllGood {} [.svc svcA, .pod p1, .slice s1, .pod p1v2] := by decide +kernel
-example : AllGood {} [.pod p1, .slice s1, .svc svcA, .pod p1v2] := by decide +kernel
+example : AllGood {} [] [.svc svcA, .pod p1, .slice s1, .pod p1v2] := by decide +kernel
+example : AllGood {} [] [.pod p1, .slice s1, .svc svcA, .pod p1v2] := by decide +kernel
 
 theorem label_edit_example :
     viewAfter [.svc svcA, .pod p1, .slice s1, .pod p1v2] = viewCold [.svc svcA, .pod p1v2, .slice s1] ∧
@@ -109,7 +109,7 @@ theorem label_edit_example :
 def s1both : Slice := sliceOf "a-s1" [ep "10.0.0.1" true false "p1", ep "10.0.0.2" true false "p2"]
 def s2 : Slice := sliceOf "a-s2" [ep "10.0.0.2" true false "p2"]
 
-example : AllGood {} [.svc svcA, .pod p1, .pod p2, .slice s1both, .slice s2, .slice s1] := by decide +kernel
+example : AllGood {} [] [.svc svcA, .pod p1, .pod p2, .slice s1both, .slice s2, .slice s1] := by decide +kernel
 
 theorem address_moves_between_slices_example :
     (viewAfter [.svc svcA, .pod p1, .pod p2, .slice s1both, .slice s2, .slice s1]).map (·.eps.map (·.addr)) =
@@ -125,10 +125,69 @@ def opsA : List Op := [.svc svcA, .slice s1, .pod p1, .pod p2, .slice s1both]
 def opsB : List Op := [.pod p2, .pod p1, .slice s1, .slice s1both, .svc svcA]
 
 theorem order_independent_example : ViewAgree (viewAfter opsA) (viewAfter opsB) :=
-  order_independent opsA opsB host (by decide +kernel) (by decide +kernel)
+  order_independent opsA opsB host (by decide +kernel) (by decide +kernel) (by decide +kernel) (by decide +kernel)
     (sameObjects_of_b (by decide +kernel)) (by decide +kernel) (by decide +kernel) (by decide +kernel)
     (by decide +kernel) (by decide +kernel) (by decide +kernel) (by decide +kernel)
-    (distinct_of_b (by decide +kernel)) (distinct_of_b (by decide +kernel))
+
+/-- `any_order_eq_cold_start` applies: the history `opsB` (pods, slices, then the Service) against the
+    model's cold start with the pods queued AFTER the slices that refer to them (every hypothesis is
+    checked by evaluation) -/
+def coldObjs : List Op := [.svc svcA, .slice s1both, .pod p2, .pod p1]
+
+theorem any_order_eq_cold_start_example : ViewAgree (viewAfter opsB) (viewCold coldObjs) :=
+  any_order_eq_cold_start opsB coldObjs host (by decide +kernel) (by decide +kernel) (by decide +kernel)
+    (by decide +kernel) (by decide +kernel) (sameObjects_of_b (by decide +kernel)) (by decide +kernel)
+    (by decide +kernel) (by decide +kernel) (by decide +kernel)
+
+/-- the cold-start theorem covers every order of these Add events but the ones with the slice first -/
+example : ColdOps {} [.pod p1, .svc svcA, .pod p2, .slice s1both] ∧
+    SvcBeforeSlice (coldFold {} [.pod p1, .svc svcA, .pod p2, .slice s1both]).2 ∧
+    ¬ SvcBeforeSlice (coldFold {} [.slice s1both, .svc svcA]).2 := by decide +kernel
+
+/-! ## the normal pod life cycle is inside `GoodStep` -/
+
+/-- a Pending pod (no IP, no node) is bound to a node and gets its IP before the slice controller
+    publishes it -/
+def nodeK1' : Node := { name := "k1", region := "r1", zone := "z1" }
+def p1pending : Pod := { p1 with ip := "", node := "", phase := "P", ready := false }
+def p1bound : Pod := { p1 with node := "k1" }
+
+example : AllGood {} [] [.svc svcA, .node nodeK1', .pod p1pending, .pod { p1bound with ready := false }, .pod p1bound,
+    .slice s1] ∧
+    staleRun {} [] [.svc svcA, .node nodeK1', .pod p1pending, .pod { p1bound with ready := false }, .pod p1bound, .slice s1] = [] := by
+  decide +kernel
+
+/-- the causal Kubernetes order at the end of a pod: the Pod is deleted, THEN the slice controller
+    drops the endpoint.  The slice is stale in between and clean afterwards. -/
+example : AllGood {} [] [.svc svcA, .pod p1, .slice s1, .delPod "n1" "p1", .slice (sliceOf "a-s1" [])] ∧
+    staleRun {} [] [.svc svcA, .pod p1, .slice s1, .delPod "n1" "p1"] = [("n1", "a-s1")] ∧
+    staleRun {} [] [.svc svcA, .pod p1, .slice s1, .delPod "n1" "p1", .slice (sliceOf "a-s1" [])] = [] := by
+  decide +kernel
+
+/-- eviction: the pod turns Failed (the informer's field selector makes that a DELETE carrying the new
+    object, IP stripped), then the slice controller drops the endpoint -/
+example : AllGood {} [] [.svc svcA, .pod p1, .slice s1, .pod { p1 with phase := "F", ip := "", ready := false },
+      .slice (sliceOf "a-s1" [])] ∧
+    staleRun {} [] [.svc svcA, .pod p1, .slice s1, .pod { p1 with phase := "F", ip := "", ready := false },
+      .slice (sliceOf "a-s1" [])] = [] ∧
+    (run {} [.svc svcA, .pod p1, .slice s1, .pod { p1 with phase := "F", ip := "", ready := false }]).c.byIP = [] := by
+  decide +kernel
+
+/-- the pod cache is the function of the pods: after the IP moved from p1 to p2 -/
+example : (run {} [.svc svcA, .pod p1, .slice s1, .slice s1r, .pod p2r, .delPod "n1" "p1"]).c.byIP = [("10.0.0.1", ["n1/p2"])] ∧
+    (run {} [.svc svcA, .pod p1, .slice s1, .slice s1r, .pod p2r, .delPod "n1" "p1"]).c.ipBy = [("n1/p2", "10.0.0.1")] := by
+  decide +kernel
+
+/-- conflicting duplicates across slices: `get` walks the slices in name order (fix 2f73eac), so the
+    endpoint of the slice with the smaller name wins whatever the arrival order -/
+def s2dup : Slice := sliceOf "a-s2" [ep "10.0.0.1" false false "p1"]
+
+theorem conflicting_duplicates_example :
+    viewAfter [.svc svcA, .pod p1, .slice s2dup, .slice s1] = viewAfter [.svc svcA, .pod p1, .slice s1, .slice s2dup] ∧
+    viewAfter [.svc svcA, .pod p1, .slice s2dup, .slice s1] = viewCold [.svc svcA, .pod p1, .slice s2dup, .slice s1] ∧
+    derive (run {} [.svc svcA, .pod p1, .slice s2dup, .slice s1]).c host = viewAfter [.svc svcA, .pod p1, .slice s2dup, .slice s1] ∧
+    AllGood {} [] [.svc svcA, .pod p1, .slice s2dup, .slice s1] := by
+  decide +kernel
 
 /-- the two stores differ as lists (order of first arrival) -/
 example : (run {} opsA).c.pods ≠ (run {} opsB).c.pods := by decide +kernel
@@ -227,15 +286,17 @@ theorem needResync_stale_registration_witness :
       [("10.0.0.1", ["n1/a-s1"])] ∧
     parkedAddrs (run {} [.svc svcA, .pod p2, .slice s1, .slice (sliceOf "a-s1" [ep "10.0.0.1" true false "p2"])]).c.pods
       (sliceOf "a-s1" [ep "10.0.0.1" true false "p2"]) = [] ∧
-    ¬ AllGood {} [.svc svcA, .pod p2, .slice s1, .slice (sliceOf "a-s1" [ep "10.0.0.1" true false "p2"])] := by
+    ¬ AllGood {} [] [.svc svcA, .pod p2, .slice s1, .slice (sliceOf "a-s1" [ep "10.0.0.1" true false "p2"])] := by
   decide +kernel
 
 /-- each witness history violates exactly the clause of `GoodStep` that names its class -/
-example : ¬ AllGood {} [.slice termEp, .pod p1term, .svc svcA] := by decide +kernel
-example : ¬ AllGood {} [.svc svcA, .pod (p1nr [("app", "a"), ("version", "v1")]), .slice s1nr,
+example : ¬ AllGood {} [] [.slice termEp, .pod p1term, .svc svcA] := by decide +kernel
+example : ¬ AllGood {} [] [.svc svcA, .pod (p1nr [("app", "a"), ("version", "v1")]), .slice s1nr,
     .pod (p1nr [("app", "a"), ("version", "v2")])] := by decide +kernel
-example : ¬ AllGood {} [.svc svcA, .pod p1k, .slice s1, .node nodeK1] := by decide +kernel
-example : ¬ AllGood {} [.svc svcA, .pod p1, .slice s1, .delPod "n1" "p1"] := by decide +kernel
-example : ¬ AllGood {} [.svc svcA, .slice s1, .pod { p1 with ip := "10.0.0.2" }] := by decide +kernel
+example : ¬ AllGood {} [] [.svc svcA, .pod p1k, .slice s1, .node nodeK1] := by decide +kernel
+/-- a deleted pod's endpoint is kept only while the slice is stale: the history is good, the stale set is not empty -/
+example : AllGood {} [] [.svc svcA, .pod p1, .slice s1, .delPod "n1" "p1"] ∧
+    staleRun {} [] [.svc svcA, .pod p1, .slice s1, .delPod "n1" "p1"] ≠ [] := by decide +kernel
+example : ¬ AllGood {} [] [.svc svcA, .slice s1, .pod { p1 with ip := "10.0.0.2" }] := by decide +kernel
 
 end IstioModel.C15
